@@ -13,7 +13,23 @@ Proof. intros I H. cbn [kstep] in H. guards. now inversion H; subst. Qed.
 Lemma pres_next n s t f s' : KInv n s -> t < n -> kstep s (LNext t f) = Some s' -> KInv n s'.
 Proof.
   intros I Ht H. cbn [kstep] in H. guards. inversion H; subst s'; clear H. bnorm.
-  constructor.
-  all: try (timeout 10 (solve [clause n s I])).
-  all: intros; simp_state; upd_tac. Show 1. Time all: try (timeout 10 (sat n s I)). Show 1.
-Abort.
+  kinv n s I.
+Qed.
+
+Lemma pres_maintend n s t s' : KInv n s -> t < n -> kstep s (LMaintEnd t) = Some s' -> KInv n s'.
+Proof. intros I Ht H. start H s'. kinv n s I. Qed.
+
+Lemma pres_resumed n s t s' : KInv n s -> t < n -> kstep s (LResumed t) = Some s' -> KInv n s'.
+Proof. intros I Ht H. start H s'; [|exact I]. kinv n s I. Qed.
+
+Lemma pres_destroy n s t f s' : KInv n s -> t < n -> kstep s (LDestroy t f) = Some s' -> KInv n s'.
+Proof. intros I Ht H. start H s'. kinv n s I. Qed.
+
+Lemma pres_create n s t g s' : KInv n s -> t < n -> kstep s (LCreate t g) = Some s' -> KInv n s'.
+Proof. intros I Ht H. start H s'. kinv n s I. Qed.
+
+Lemma pres_slotdone n s t f s' : KInv n s -> t < n -> kstep s (LSlotDone t f) = Some s' -> KInv n s'.
+Proof. intros I Ht H. start H s'. kinv n s I. Qed.
+
+Lemma pres_sched n s t f s' : KInv n s -> t < n -> kstep s (LSched t f) = Some s' -> KInv n s'.
+Proof. intros I Ht H. start H s'; kinv n s I. Qed.
